@@ -74,7 +74,12 @@ def one_run(docs, run, by_title):
     random.seed(run.get("seed", 0))
     random.choices = choices
     try:
-        col = SigmaCollection.from_dicts(copy.deepcopy(docs), collect_filters=bool(run.get("collect")))
+        if run.get("explicit"):
+            # the other public route: collect the filters, then SigmaCollection.apply_filters(...)
+            col = SigmaCollection.from_dicts(copy.deepcopy(docs), collect_filters=True)
+            col.apply_filters(col.filters)
+        else:
+            col = SigmaCollection.from_dicts(copy.deepcopy(docs), collect_filters=bool(run.get("collect")))
         out_rules = [rule_view(r) for r in col.rules]
     finally:
         random.choices = _real_choices
